@@ -1,11 +1,11 @@
 #!/usr/bin/env python3
-"""Writes seeded/<id>/meta.json for the round-2 changes (Cxx-r2m<i>) from their notes and seeded/results_quick.json."""
+"""Writes seeded/<id>/meta.json for the changes of rounds 2-6 (Cxx-r<n>m<i>) from their notes and seeded/results_quick.json."""
 import json, os, re
 ROOT = os.path.dirname(os.path.dirname(os.path.abspath(__file__)))
 res = json.load(open(os.path.join(ROOT, 'seeded', 'results_quick.json')))
 for sid in sorted(os.listdir(os.path.join(ROOT, 'seeded'))):
     d = os.path.join(ROOT, 'seeded', sid)
-    if not os.path.isdir(d) or ('-r2m' not in sid and '-r3m' not in sid and '-r4m' not in sid):
+    if not os.path.isdir(d) or not re.search(r'-r[2-6]m', sid):
         continue
     notes = open(os.path.join(d, 'notes.md')).read()
     title = re.sub(r'^#\s*m\d\s*-+\s*', '', notes.splitlines()[0]).strip().replace('`', '')
@@ -14,9 +14,9 @@ for sid in sorted(os.listdir(os.path.join(ROOT, 'seeded'))):
     if m:
         needs = ' '.join(m.group(2).split())[:400]
     r = res.get(sid, {})
-    meta = {'breaks_property': sid.split('-')[0], 'round': 4 if '-r4m' in sid else 3 if '-r3m' in sid else 2, 'change': title, 'needs_to_manifest': needs or 'see notes.md',
+    meta = {'breaks_property': sid.split('-')[0], 'round': int(re.search(r'-r(\d)m', sid).group(1)), 'change': title, 'needs_to_manifest': needs or 'see notes.md',
             'confirmed': 'applied to a scratch worktree of /repo HEAD: the suite passes (-n 2 --no-cov; only the flaky Django model-instance tests ever fail), '
-                         'demo.py exits non-zero with the patch and 0 without it (seeded/confirm_round2.txt / confirm_round3.txt / confirm_round4.txt)',
+                         'demo.py exits non-zero with the patch and 0 without it (seeded/confirm_round<n>.txt)',
             'ran': ['tools/eval_seeded.py %s  (quick tier, scratch worktree, VERIF_REPO)' % sid],
             'caught_by_quick_checks': r.get('caught_by', []),
             'first_report': r.get('first_line', {}),
